@@ -89,6 +89,10 @@ var vCompIDs = map[int]component.ID{
 	9:  component.MustNewIDWithName("k", "k"),
 	10: component.MustNewIDWithName("k", "Eu"),
 	11: component.MustNewIDWithName("k", "eu/K"),
+	// referenced but unavailable (only ever injected, never drawn by the generator): 12 has a factory (type k) but NO configuration
+	// ("… is not configured"), 13 is configured but its type has NO factory ("… factory not available for"): builders.*Builder.Create*
+	12: component.MustNewIDWithName("k", "nc"),
+	13: component.MustNewIDWithName("nf", "x"),
 }
 
 var vPipeNames = []string{"EU", "eu", "", "e", "eu/e", "Eu", "E", "eU"}
@@ -168,6 +172,9 @@ type vWorld struct {
 	// after other components were already created)
 	failCreate map[string]bool
 	notRouter  []string // connector instances whose next consumer was not the pipeline router
+	plainConn  int      // connector factories built with connector.NewFactory (not an xconnector.Factory)
+	routers     []string // per connector instance: the pipeline ids of the router it was given (key=sig.name+sig.name…)
+	routerNoErr []string // connector instances whose router returned a consumer for no id / for an unknown pipeline id
 }
 
 func newVWorld() *vWorld {
@@ -398,6 +405,38 @@ func (w *vWorld) mkConn(id component.ID, es, rs int, next any) (*vNode, error) {
 		return nil, fmt.Errorf("verif: next consumer of %s is not the pipeline router (%T)", key, next)
 	}
 	w.creates[key]++
+	// the content of the router the graph built for this instance, and its error branches (connector/internal BaseRouter.Consumer:
+	// no id -> "missing consumers"; an id that is not a next pipeline -> "missing consumer", nothing is returned)
+	var ids []pipeline.ID
+	var errNone, errUnknown error
+	unknown := pipeline.NewIDWithName(vSignals[rs], "verif-no-such-pipeline")
+	switch r := next.(type) {
+	case connector.TracesRouterAndConsumer:
+		ids = r.PipelineIDs()
+		_, errNone = r.Consumer()
+		_, errUnknown = r.Consumer(append(append([]pipeline.ID{}, ids...), unknown)...)
+	case connector.MetricsRouterAndConsumer:
+		ids = r.PipelineIDs()
+		_, errNone = r.Consumer()
+		_, errUnknown = r.Consumer(append(append([]pipeline.ID{}, ids...), unknown)...)
+	case connector.LogsRouterAndConsumer:
+		ids = r.PipelineIDs()
+		_, errNone = r.Consumer()
+		_, errUnknown = r.Consumer(append(append([]pipeline.ID{}, ids...), unknown)...)
+	case xconnector.ProfilesRouterAndConsumer:
+		ids = r.PipelineIDs()
+		_, errNone = r.Consumer()
+		_, errUnknown = r.Consumer(append(append([]pipeline.ID{}, ids...), unknown)...)
+	}
+	var toks []string
+	for _, id := range ids {
+		toks = append(toks, vPipeTok(id))
+	}
+	sort.Strings(toks)
+	w.routers = append(w.routers, key+"="+strings.Join(toks, "+"))
+	if errNone == nil || errUnknown == nil {
+		w.routerNoErr = append(w.routerNoErr, key)
+	}
 	return &vNode{w: w, kind: 'c', label: key, next: next, outSig: rs, conn: w.connCfg[vIDNum(id)]}, nil
 }
 
@@ -449,7 +488,62 @@ func (w *vWorld) expFactory(t component.Type) exporter.Factory {
 		}, component.StabilityLevelStable))
 }
 
+// connFactoryPlain: a factory built with connector.NewFactory (it does NOT implement xconnector.Factory): connectorStability must answer
+// Undefined for every profiles pair through its `f.(xconnector.Factory)` guards and read the other nine cells from the plain interface.
+func (w *vWorld) connFactoryPlain(t component.Type, supp [4][4]bool) connector.Factory {
+	st := component.StabilityLevelStable
+	var o []connector.FactoryOption
+	add := func(es, rs int, opt connector.FactoryOption) {
+		if supp[es][rs] {
+			o = append(o, opt)
+		}
+	}
+	add(0, 0, connector.WithTracesToTraces(func(_ context.Context, s connector.Settings, _ component.Config, n consumer.Traces) (connector.Traces, error) {
+		return w.mkConn(s.ID, 0, 0, n)
+	}, st))
+	add(0, 1, connector.WithTracesToMetrics(func(_ context.Context, s connector.Settings, _ component.Config, n consumer.Metrics) (connector.Traces, error) {
+		return w.mkConn(s.ID, 0, 1, n)
+	}, st))
+	add(0, 2, connector.WithTracesToLogs(func(_ context.Context, s connector.Settings, _ component.Config, n consumer.Logs) (connector.Traces, error) {
+		return w.mkConn(s.ID, 0, 2, n)
+	}, st))
+	add(1, 0, connector.WithMetricsToTraces(func(_ context.Context, s connector.Settings, _ component.Config, n consumer.Traces) (connector.Metrics, error) {
+		return w.mkConn(s.ID, 1, 0, n)
+	}, st))
+	add(1, 1, connector.WithMetricsToMetrics(func(_ context.Context, s connector.Settings, _ component.Config, n consumer.Metrics) (connector.Metrics, error) {
+		return w.mkConn(s.ID, 1, 1, n)
+	}, st))
+	add(1, 2, connector.WithMetricsToLogs(func(_ context.Context, s connector.Settings, _ component.Config, n consumer.Logs) (connector.Metrics, error) {
+		return w.mkConn(s.ID, 1, 2, n)
+	}, st))
+	add(2, 0, connector.WithLogsToTraces(func(_ context.Context, s connector.Settings, _ component.Config, n consumer.Traces) (connector.Logs, error) {
+		return w.mkConn(s.ID, 2, 0, n)
+	}, st))
+	add(2, 1, connector.WithLogsToMetrics(func(_ context.Context, s connector.Settings, _ component.Config, n consumer.Metrics) (connector.Logs, error) {
+		return w.mkConn(s.ID, 2, 1, n)
+	}, st))
+	add(2, 2, connector.WithLogsToLogs(func(_ context.Context, s connector.Settings, _ component.Config, n consumer.Logs) (connector.Logs, error) {
+		return w.mkConn(s.ID, 2, 2, n)
+	}, st))
+	return connector.NewFactory(t, vDefaultCfg, o...)
+}
+
 func (w *vWorld) connFactory(t component.Type, supp [4][4]bool) connector.Factory {
+	// a support matrix without a profiles pair is served, for every second such matrix, by a plain connector.Factory
+	// (deterministic choice: no random draw, the case streams of older seeds are unchanged)
+	cells, prof := 0, false
+	for i := range supp {
+		for j := range supp[i] {
+			if supp[i][j] {
+				cells++
+				prof = prof || i == 3 || j == 3
+			}
+		}
+	}
+	if !prof && (cells+len(t.String()))%2 == 0 {
+		w.plainConn++
+		return w.connFactoryPlain(t, supp)
+	}
 	st := component.StabilityLevelStable
 	var o []xconnector.FactoryOption
 	add := func(es, rs int, opt xconnector.FactoryOption) {
@@ -519,6 +613,7 @@ func vSettings(w *vWorld, cfg vCfg) Settings {
 		rc[id], pc[id], ec[id] = &struct{}{}, &struct{}{}, &struct{}{}
 		rf[id.Type()], pf[id.Type()], ef[id.Type()] = w.recvFactory(id.Type()), w.procFactory(id.Type()), w.expFactory(id.Type())
 	}
+	rc[vID(13)], pc[vID(13)], ec[vID(13)] = &struct{}{}, &struct{}{}, &struct{}{} // configured, but no factory of type nf; 12: the reverse
 	for _, c := range cfg.conns {
 		id := vID(c.id)
 		cc[id] = &struct{}{}
@@ -599,7 +694,20 @@ func vCorpus() []vCfg {
 			pipes: []vPipeCfg{{0, 0, []int{1}, nil, []int{5, 6, 7}}, {1, 0, []int{5, 6}, []int{1}, []int{1}}, {1, 1, []int{5, 6, 7}, []int{2}, []int{2}}, {1, 2, []int{6, 7}, []int{3}, []int{3}}}},
 		// 14 near-colliding ids side by side: receivers/exporters k/EU (1), k/eu (2), k/Eu (10) in pipelines logs/EU (0), logs/eu (1), logs (2), logs/Eu (5)
 		{pipes: []vPipeCfg{{2, 0, []int{1}, []int{2}, []int{2}}, {2, 1, []int{2}, []int{1}, []int{1}}, {2, 2, []int{10, 1}, []int{10, 2, 1}, []int{10}}, {2, 5, []int{2}, []int{1, 10}, []int{1, 10}}}},
+		// 15 no pipeline at all: pipelines.Config.Validate "service must have at least one pipeline" (gate service.AllowNoPipelines is off)
+		{},
+		// 16 a profiles pipeline next to a traces pipeline (with the feature gate service.profilesSupport switched off for this case, see vGateOff)
+		{pipes: []vPipeCfg{{0, 0, []int{1}, nil, []int{1}}, {3, 0, []int{1}, []int{1}, []int{2}}}},
 	}
+}
+
+// vGateOff: the cases validated with the feature gate service.profilesSupport OFF (pipelines.Config.Validate then refuses every profiles
+// pipeline): corpus case 16 and ~8% of the random cases (own random stream derived from the case index).
+func vGateOff(c, ncorpus int) bool {
+	if c < ncorpus {
+		return c == 16
+	}
+	return vRand(c+3<<24).IntN(12) == 0
 }
 
 func vPick(rnd *rand.Rand, lo, hi, k int, dups bool) []int {
@@ -828,6 +936,9 @@ func vErrClass(err error) string {
 		return "err=connector"
 	case strings.Contains(msg, "verif create failure"):
 		return "err=create"
+	case strings.HasPrefix(msg, "failed to create") && (strings.Contains(msg, "is not configured") || strings.Contains(msg, "factory not available for")):
+		// receiverNode / processorNode / exporterNode.buildComponent wrapping the error of builders.*Builder.Create*
+		return "err=create"
 	}
 	return "err=other:" + hex.EncodeToString([]byte(msg))
 }
@@ -853,6 +964,37 @@ func vCycleTokens(msg string) []string {
 	return toks
 }
 
+var vReConnErr = regexp.MustCompile(`^connector "([^"]+)" used as (exporter|receiver) in \[([^\]]*)\] pipeline but not used in any supported (receiver|exporter) pipeline$`)
+
+// vConnErrTokens: the connector error of createNodes as tokens "<exp|recv> <connector id> <signal> <sig.name,sig.name,...>" (the signal is
+// that of the first listed pipeline; the Lean monitor connMsgOk checks that the list is exactly the pipelines of that signal using the
+// connector on that side and that no supported counterpart exists); "?" when the text has another shape.
+func vConnErrTokens(msg string) string {
+	sig := map[string]int{"traces": 0, "metrics": 1, "logs": 2, "profiles": 3}
+	m := vReConnErr.FindStringSubmatch(msg)
+	if m == nil || vCompByStr[m[1]] == 0 || (m[2] == "exporter") != (m[4] == "receiver") || m[3] == "" {
+		return "?"
+	}
+	role := "exp"
+	if m[2] == "receiver" {
+		role = "recv"
+	}
+	var pipes []string
+	first := -1
+	for _, el := range strings.Split(m[3], " ") {
+		sg, name, _ := strings.Cut(el, "/")
+		si, ok := sig[sg]
+		if !ok || vPipeNum(name) < 0 {
+			return "?"
+		}
+		if first < 0 {
+			first = si
+		}
+		pipes = append(pipes, fmt.Sprintf("%d.%d", si, vPipeNum(name)))
+	}
+	return fmt.Sprintf("%s %d %d %s", role, vCompByStr[m[1]], first, strings.Join(pipes, ","))
+}
+
 func vValidate(pcs pipelines.Config) (err error) {
 	defer func() {
 		if r := recover(); r != nil {
@@ -869,7 +1011,8 @@ func vValClass(err error) string {
 	}
 	msg := err.Error()
 	var cls []string
-	for _, kv := range [][2]string{{"references processor", "dupproc"}, {"must have at least one exporter", "exporters"}, {"must have at least one receiver", "receivers"}} {
+	for _, kv := range [][2]string{{"references processor", "dupproc"}, {"must have at least one exporter", "exporters"}, {"must have at least one receiver", "receivers"},
+		{"service must have at least one pipeline", "nopipelines"}, {"profiling signal support is at alpha level", "profilesgate"}} {
 		if strings.Contains(msg, kv[0]) {
 			cls = append(cls, kv[1])
 		}
@@ -964,6 +1107,94 @@ func TestVerifC09Graph(t *testing.T) {
 				continue
 			}
 		}
+		// 4% of the random cases: one non-connector receiver / exporter / processor entry is replaced by an id that is referenced but
+		// unavailable (12: not configured, 13: no factory): the builders' error branches, reached inside buildComponents after other
+		// components were created. An own random stream (derived from the case index), so the main stream of the case is unchanged.
+		// 12% of the random cases get a WIDE connector fan-out: one more connector (full support matrix, 30% selective) used as exporter in an
+		// existing pipeline and as receiver in 3-4 NEW pipelines of one random signal - every signal's router (traces / metrics / logs /
+		// profiles) is then built over three or four next pipelines, not only the metrics one of corpus case 13. Own random stream.
+		if c >= len(corpus) && c < n {
+			r3 := vRand(c + 4<<24)
+			if r3.IntN(8) == 0 {
+				id := 0
+				for _, cand := range []int{5, 6, 7} {
+					used := false
+					for _, cc := range cfg.conns {
+						used = used || cc.id == cand
+					}
+					if !used {
+						id = cand
+						break
+					}
+				}
+				sg, k := r3.IntN(4), 3+r3.IntN(2)
+				have := 0
+				for _, p := range cfg.pipes {
+					if p.sig == sg {
+						have++
+					}
+				}
+				if id != 0 && have+k <= len(vPipeNames) {
+					cc := vConnCfg{id: id, supp: vFull()}
+					if r3.IntN(10) < 3 {
+						cc.selective = true
+						for x := 0; x < len(vPipeNames); x++ {
+							if r3.IntN(2) == 0 {
+								cc.sel = append(cc.sel, x)
+							}
+						}
+					}
+					cfg.conns = append(cfg.conns, cc)
+					src := &cfg.pipes[r3.IntN(len(cfg.pipes))]
+					src.exps = append(append([]int{}, src.exps...), id)
+					for j := 0; j < k; j++ {
+						np := vPipeCfg{sig: sg, name: have + j, recv: []int{id}, exps: []int{1 + r3.IntN(4)}}
+						if r3.IntN(2) == 0 {
+							np.procs = []int{1 + r3.IntN(4)}
+						}
+						if r3.IntN(3) == 0 {
+							np.recv = append(np.recv, 1+r3.IntN(4))
+						}
+						cfg.pipes = append(cfg.pipes, np)
+					}
+				}
+			}
+		}
+		var unavailable []string
+		if c >= len(corpus) && c < n {
+			r2 := vRand(c + 1<<24)
+			if r2.IntN(25) == 0 {
+				bad := 12 + r2.IntN(2)
+				p := &cfg.pipes[r2.IntN(len(cfg.pipes))]
+				isConn := func(x int) bool {
+					for _, cc := range cfg.conns {
+						if cc.id == x {
+							return true
+						}
+					}
+					return false
+				}
+				switch k := r2.IntN(3); {
+				case k == 0 && len(p.recv) > 0:
+					if i := r2.IntN(len(p.recv)); !isConn(p.recv[i]) {
+						p.recv = append([]int{}, p.recv...)
+						p.recv[i] = bad
+						unavailable = append(unavailable, fmt.Sprintf("r%d:%d", bad, p.sig))
+					}
+				case k == 1 && len(p.exps) > 0:
+					if i := r2.IntN(len(p.exps)); !isConn(p.exps[i]) {
+						p.exps = append([]int{}, p.exps...)
+						p.exps[i] = bad
+						unavailable = append(unavailable, fmt.Sprintf("e%d:%d", bad, p.sig))
+					}
+				case k == 2 && len(p.procs) > 0:
+					i := r2.IntN(len(p.procs))
+					p.procs = append([]int{}, p.procs...)
+					p.procs[i] = bad
+					unavailable = append(unavailable, fmt.Sprintf("p%d@%d.%d", bad, p.sig, p.name))
+				}
+			}
+		}
 		out.Linef("case %d", c)
 		vEmitCfg(out, cfg)
 		w := newVWorld()
@@ -971,8 +1202,22 @@ func TestVerifC09Graph(t *testing.T) {
 		// what otelcol always does first: validate the configuration; the SAME pipelines.Config value is built afterwards.
 		// Validation must be read-only: the value is dumped before and after.
 		before := vDumpPipelines(set.PipelineConfigs)
+		gateOff := vGateOff(c, len(corpus))
+		if gateOff {
+			if err := featuregate.GlobalRegistry().Set("service.profilesSupport", false); err != nil {
+				t.Fatal(err)
+			}
+			out.Linef("stat profiles_gate_off 1")
+		}
 		verr := vValidate(set.PipelineConfigs)
-		out.Linef("op validate")
+		if gateOff {
+			if err := featuregate.GlobalRegistry().Set("service.profilesSupport", true); err != nil {
+				t.Fatal(err)
+			}
+			out.Linef("op validate gate=0")
+		} else {
+			out.Linef("op validate")
+		}
 		out.Linef("obs validate %s", vValClass(verr))
 		if after := vDumpPipelines(set.PipelineConfigs); after != before {
 			out.Linef("viol sig=C09/validate/validation-changed-the-configuration before=%s after=%s", vHex(before), vHex(after))
@@ -1020,7 +1265,28 @@ func TestVerifC09Graph(t *testing.T) {
 				out.Linef("op failcreate %s", k)
 			}
 		}
+		for _, k := range unavailable {
+			out.Linef("op failcreate %s", k)
+			out.Linef("stat unavailable_component_%c 1", k[0])
+		}
+		// Build must not modify its input: the SAME pipelines.Config value is built again by the real service (service.Validate, then
+		// service.New; a reload re-using the settings). Every second case is therefore built TWICE from the very same value - the first
+		// build with components of a throw-away world - and everything below (error class, instances, routes, messages) is observed on
+		// the SECOND build; in every case the value is dumped before and after each build.
+		if c%2 == 1 {
+			w0 := newVWorld()
+			set0 := vSettings(w0, cfg)
+			set0.PipelineConfigs = set.PipelineConfigs
+			_, _ = vBuild(set0)
+			out.Linef("stat built_twice 1")
+			if after := vDumpPipelines(set.PipelineConfigs); after != before {
+				out.Linef("viol sig=C09/build/build-changed-the-configuration build=1 before=%s after=%s", vHex(before), vHex(after))
+			}
+		}
 		g, err := vBuild(set)
+		if after := vDumpPipelines(set.PipelineConfigs); after != before {
+			out.Linef("viol sig=C09/build/build-changed-the-configuration build=last before=%s after=%s", vHex(before), vHex(after))
+		}
 		out.Linef("op build")
 		cls := vErrClass(err)
 		out.Linef("obs build %s", cls)
@@ -1055,6 +1321,9 @@ func TestVerifC09Graph(t *testing.T) {
 			if cls == "err=cycle" {
 				out.Linef("tr cycle %s", strings.Join(vCycleTokens(err.Error()), " "))
 			}
+			if cls == "err=connector" {
+				out.Linef("tr connerr %s", vConnErrTokens(err.Error()))
+			}
 			if len(w.creates)+len(w.procs) > 0 && cls != "err=create" {
 				out.Linef("viol sig=C09/reject/components-created-before-rejection creates=%d", len(w.creates)+len(w.procs))
 			}
@@ -1065,6 +1334,12 @@ func TestVerifC09Graph(t *testing.T) {
 		} else {
 			toks, orphan := vLabelAndCount(g, w)
 			out.Linef("obs nodes %s", strings.Join(toks, " "))
+			// every connector instance's router: exactly the pipelines that list the connector as a receiver with a supported pair
+			sort.Strings(w.routers)
+			out.Linef("obs routers %d %s", len(w.routers), strings.Join(w.routers, " "))
+			for _, k := range w.routerNoErr {
+				out.Linef("viol sig=C09/router/consumer-returned-for-no-or-unknown-pipeline-id %s", k)
+			}
 			if orphan > 0 {
 				out.Linef("viol sig=C09/sharing/processor-instance-not-in-any-pipeline n=%d", orphan)
 			}
@@ -1150,6 +1425,7 @@ func TestVerifC09Graph(t *testing.T) {
 			out.Linef("nt")
 		}
 		out.Linef("stat pipelines %d", len(cfg.pipes))
+		out.Linef("stat plain_connector_factories %d", w.plainConn)
 		out.Linef("end")
 		out.Flush()
 	}
